@@ -38,6 +38,8 @@ func main() {
 		"Tag probes: one tagged field per tag x {str,int,float,bool,slice} x style: the field stays, the parsed keywords against the Lean model of the tag parser. " +
 		"Tool-construction histories: several tools over one compile-time struct type built in one process through NewTool / WithInputStruct / WithOutputStruct / WithString ... in seeded orders and styles, registered and listed " +
 		"through a real client: the listed schema is what building that tool alone in a fresh sub-process gives, earlier tools never change, names = encoding/json's + the tool's own parameters. " +
+		"Typed handler behind a real tools/call (raw JSON POST bodies with exact bytes to a stateless server, and the real client): empty slices / maps at every depth, explicit nulls, empty strings, zeros, false — fixed cases plus a seeded generator; " +
+		"what the handler received, re-encoded, equals encoding/json's own decoding of the sent bytes re-encoded ([] is not null, {} is not null). " +
 		"Re-registration histories on Server (real client tools/list, GetTool, GetTools), SSEServer and StdioServer (GetTool / GetTools): one name registered again with fewer parts (no output schema / description / annotations, fewer parameters, " +
 		"hand-built instead of struct-generated, other style), richer again, unregister / register: the whole listed descriptor is the one registered last, as built alone in a fresh sub-process; differential against the Lean registry model. " +
 		"Differential: generator output, json.Marshal, field names and validator verdicts against the Lean model. Non-trivial = the type has at least one struct/container level below the root or is recursive.",
@@ -231,6 +233,7 @@ func run(c *hk.Ctx) {
 	r.bigInts()
 	r.endToEnd(cases)
 	r.histories(cases)
+	r.emptyCalls()
 	r.buildHistories()
 	r.reRegistrationHistories()
 }
